@@ -813,10 +813,11 @@ def css_check(res, pid, theorems, relevant_counters, rule):
         "disagree_on_malformed_input": agg.get("malformed_disagree", 0), "impl_panics": agg.get("impl_panic", 0),
         "model_out_of_fuel": agg.get("model_out_of_fuel", 0),
     }
-    if agg.get("model_out_of_fuel", 0) or agg.get("model_spec_verdict_differs", 0):
-        res.violation("model ran out of fuel / model and implementation get different spec verdicts on %d inputs" % (
-            agg.get("model_out_of_fuel", 0) + agg.get("model_spec_verdict_differs", 0)),
-            {"obligation": "correspondence of coq/Model/Css.v with lib.rs"}, no_input=True)
+    res.notes["correspondence"]["inputs on which model and implementation get different spec verdicts"] = \
+        agg.get("model_spec_verdict_differs", 0)
+    if agg.get("model_out_of_fuel", 0):
+        res.violation("the model ran out of fuel on %d inputs (the fuel bound S(size) of Css.transform is wrong)" % (
+            agg.get("model_out_of_fuel", 0)), {"obligation": "fuel adequacy of coq/Model/Css.v"}, no_input=True)
     if not ok:
         res.violation(what, {"obligation": "Properties/%s.v" % pid}, no_input=(n_viol == 0))
     rerun_known(res, pid)
